@@ -24,7 +24,7 @@ esac
 
 id="$1"; tier="${2:-quick}"
 case "$id" in
-  C16)
+  C10|C11|C12|C14|C16|C17|C18|C19)
     build_s
     exec bin/verifs "$id" "$tier";;
   *) echo "HARNESS-ERROR: unknown property $id"; exit 3;;
